@@ -8,6 +8,7 @@ Answer:   `model=<ok | reject@i:<event>:<pc>>[ mon=<failed monitor>…] holds=<0
 -/
 import KafkaVerif.Base.Proto
 import KafkaVerif.Model.GroupRun
+import Oracle.GroupWireOps
 
 namespace KV.OracleC15
 open KV KV.Group
@@ -197,8 +198,21 @@ def monWatch (es : List Ev) : Option String :=
       | _ => none
     | _ => none) [] es 0
 
-def monitors (es : List Ev) : List String :=
-  [monOneLive es, monCtx es, monLeave es, monBackoff es, monHeartbeat es, monWatch es, monLateStart es].filterMap id
+/-- with WatchPartitionChanges a generation watches EVERY configured topic (also those it was assigned nothing of): each
+watcher's start-up lookup shows up as a `watchCall g t` -/
+def monWatchAll (nWatch : Nat) (es : List Ev) : Option String :=
+  if nWatch == 0 then none else
+  es.findSome? fun e =>
+    match e with
+    | .handed g =>
+      match (List.range nWatch).find? (fun t => !(es.any fun p => p == .watchCall g t)) with
+      | some t => some s!"no-watcher-for-configured-topic:g{g}:t{t}"
+      | none => none
+    | _ => none
+
+def monitors (nWatch : Nat) (es : List Ev) : List String :=
+  [monOneLive es, monCtx es, monLeave es, monBackoff es, monHeartbeat es, monWatch es, monWatchAll nWatch es,
+   monLateStart es].filterMap id
 
 def showPC (p : PC) : String := (toString (repr p)).replace "\n" " "
 
@@ -213,7 +227,7 @@ def answer (line : String) : String :=
         let acc := match firstReject c {} es 0 with
           | none => "ok"
           | some (i, s) => s!"reject@{i}:{(evs.splitOn ";").getD i "?"}:{showPC s.pc}"
-        let ms := monitors es
+        let ms := monitors nWatch es
         let m := if ms.isEmpty then acc else acc ++ " mon=" ++ ",".intercalate ms
         s!"model={m} holds={if ms.isEmpty then 1 else 0}"
       | _, _ =>
@@ -237,6 +251,17 @@ def answer (line : String) : String :=
         (if decide ((nat cfg "backoff" : Int) ≤ bo + 1 ∧ bo ≤ (nat cfg "backoff" : Int) + 300) then [] else ["backoff"])
       if bad.isEmpty && el > 0 then s!"model={_impl} holds=1"
       else s!"model=options-not-passed-through:{",".intercalate bad} holds=0"
+    | ["wirereq", method, desc] => KV.OracleGW.opWireReq method desc _impl
+    | ["defaults"] =>
+      let m := KV.Group.expectedDefaultsObservation
+      s!"model={m} holds={if m == _impl then 1 else 0}"
+    | ["coordaddr", host, port] =>
+      -- FindCoordinator answered (host, port): the next connect dials exactly that address
+      match port.toInt? with
+      | some p =>
+        let m := KV.Group.coordinatorAddress host p
+        s!"model={m} holds={if m == _impl then 1 else 0}"
+      | none => "bad-op"
     | ["hbwait", iv, el] =>
       -- the same observation while the generation waits to be picked up by Next
       match iv.toNat?, el.toNat?, _impl.toNat? with
